@@ -258,7 +258,7 @@ func (eng *Engine) isRecursive(fn *ssa.Function) bool {
 	seen := map[*ssa.Function]bool{}
 	var reach func(f *ssa.Function, depth int) bool
 	reach = func(f *ssa.Function, depth int) bool {
-		if depth > 6 {
+		if depth > 60 {
 			return true
 		}
 		for _, b := range f.Blocks {
